@@ -4,7 +4,7 @@
 CHECKS = {
     "C01": {
         "level": "exploration",
-        "quick": {"shards": 16, "rounds": 1, "checks": 150, "timeout": 900},
+        "quick": {"shards": 16, "rounds": 1, "checks": 400, "timeout": 900},
         "thorough": {"shards": 16, "rounds": 6, "checks": 500, "timeout": 3000},
         "assumptions": [
             "single client; the background flush goroutine is quiesced between steps so a case is a function of its program",
